@@ -233,12 +233,19 @@ def _mutators():
     }
     for a in ("edge_node_connectivity", "face_edge_connectivity", "node_x", "face_lon", "edge_lon", "face_areas", "bounds", "node_face_connectivity"):
         M["derive:" + a] = lambda g, a=a: getattr(g, a)
+    # exports fill caches on the Grid object (or, wrongly, somewhere shared): the other side's exports must not see them
+    M["derive:to_linecollection"] = lambda g: g.to_linecollection()
+    M["derive:to_polycollection"] = lambda g: g.to_polycollection()
+    M["derive:to_geodataframe"] = lambda g: g.to_geodataframe()
     return M
+
+
+GEOM_EVENTS = [k for k in ("gdf(exclude,spatialpandas,None)", "poly(exclude,None)", "line(exclude,None)") if k in ALL_EVENTS]
 
 
 def _observe(g):
     out = {}
-    for en in VALUE_EVENTS:
+    for en in VALUE_EVENTS + GEOM_EVENTS:
         try:
             out[en] = ("ok", ALL_EVENTS[en][1](g))
         except Exception as e:
@@ -270,6 +277,7 @@ def _run_copy(case, res):
     depth = case["depth"]
     first = case["first"]
     hists = [(first,) + rest for rest in itertools.product(names, repeat=depth - 1)]
+    refs = {}
     for h in hists:
         for side in ("original", "copy"):
             for xyz in (False, True):
@@ -277,11 +285,15 @@ def _run_copy(case, res):
                 if "only" in case and foc != case["only"]:
                     continue
                 focus = dict(case, only=foc)
+                # reference: what an untouched grid of the same kind reports -- observed on a separate fresh object in its OWN execution
+                # (module state restored afterwards), so that observing neither materialises variables on the pair under test nor
+                # pre-fills anything shared that the pair might wrongly read
+                if xyz not in refs:
+                    pool.fresh()
+                    refs[xyz] = _observe(_grid_xyz(m) if xyz else build.grid(m))
+                ref = refs[xyz]
                 pool.fresh()
                 g = _grid_xyz(m) if xyz else build.grid(m)
-                # reference: what an untouched grid of the same kind reports (observed on a separate fresh object, so that
-                # observing does not itself materialise variables on the pair under test)
-                ref = _observe(_grid_xyz(m) if xyz else build.grid(m))
                 g2 = g.copy()
                 tgt, other = (g, g2) if side == "original" else (g2, g)
                 applied = []
@@ -464,7 +476,8 @@ def _export_names():
 
 
 def _mutator_names():
-    return ["construct_face_centers(cartesian average)", "construct_face_centers(welzl)", "normalize_cartesian_coordinates", "chunk", "set:node_lon", "set:node_lat", "set:face_node_connectivity", "set:node_x", "set:face_lon", "set:face_areas"] + ["derive:" + a for a in ("edge_node_connectivity", "face_edge_connectivity", "node_x", "face_lon", "edge_lon", "face_areas", "bounds", "node_face_connectivity")]
+    return list(_mutators())
+
 
 
 def selftest_case(tier):
